@@ -2,8 +2,8 @@ package pipe
 
 // C09 — the pipe is a lossless, deadlock-free FIFO byte stream with exact close rules.
 //
-//vf:job C09 quick VF_C09_Offsets size=0,1,3,5
-//vf:job C09 thorough VF_C09_Offsets size=2,4
+//vf:job C09 quick VF_C09_Offsets size=0,1,2,3,5
+//vf:job C09 thorough VF_C09_Offsets size=4
 //vf:job C09 quick VF_C09_MemReadStep blen=0..4
 //vf:job C09 quick VF_C09_MemWriteStep blen=0..4
 //vf:job C09 quick VF_C09_FileReadStep blen=1..3
@@ -15,7 +15,8 @@ package pipe
 //vf:job C09 quick VF_C09_ProtoReaderCloses wn=1..2
 //vf:job C09 thorough VF_C09_Proto writes=2..2 wn=3..3 rn=1..3 close=0..1
 //vf:job C09 thorough VF_C09_ProtoFull
-//vf:replayE C09 VF_C09_FileReadStep VF_C09_FileWriteStep VF_C09_Proto VF_C09_ProtoReaderCloses VF_C09_ProtoFull
+//vf:job C09 quick VF_C09_ProtoBlockedWriter extra=2,64 rn=1,16
+//vf:replayE C09 VF_C09_FileReadStep VF_C09_FileWriteStep VF_C09_Proto VF_C09_ProtoReaderCloses VF_C09_ProtoFull VF_C09_ProtoBlockedWriter
 //vf:opt C09 preempt=2 thorough_preempt=3
 //vf:stub C09 (*os.File).ReadAt/WriteAt/Truncate/Close: byte-store file of ring size (file-backed steps only)
 //vf:assume C09 offset lemmas: ring sizes 4096, 8192, 12288, 4 MiB, 12 MiB and 8 (a fully symbolic 64-bit size makes the remainder undecidable within 60 s in all three back ends); positions and buffer lengths are arbitrary 64-bit values
@@ -464,4 +465,53 @@ func VF_C09_ProtoFull() {
 		vfAssert(out[0] == mark[0] && out[4095] == mark[1] && out[4096] == mark[2], "bytes around the wrap point")
 	}
 	vfAssertTwin(len(out) != 4097, "twin")
+}
+
+// a writer blocked on a full ring is woken by every read that makes room: after the reader
+// took rn bytes and everything that can run has run, the ring is full again (or holds all
+// that is left), without the reader doing anything further
+func VF_C09_ProtoBlockedWriter() {
+	extra := vfParam("extra", 2)
+	rn := vfParam("rn", 1)
+	total := 4096 + extra
+	mark := vfBytes("m", 3)
+	big := make([]byte, total)
+	big[0], big[4095], big[total-1] = mark[0], mark[1], mark[2]
+	r, w := NewSize(1)
+	done := make(chan int, 1)
+	go func() {
+		n, err := w.Write(big)
+		vfAssert(n == total && err == nil, "oversized write must complete once the reader made room")
+		w.Close()
+		done <- 1
+	}()
+	out := make([]byte, 0, total)
+	for step := 0; step < 3; step++ {
+		vfIdle()
+		left := total - len(out)
+		if left > 4096 {
+			left = 4096
+		}
+		b, err := r.Buffered()
+		vfAssert(err == nil && b == left, "a read made room but the blocked writer was not woken (ring not refilled at quiescence)")
+		buf := make([]byte, rn)
+		n, err := r.Read(buf)
+		vfAssert(n == rn && err == nil, "read of a full ring")
+		out = append(out, buf[:n]...)
+	}
+	buf := make([]byte, 4096)
+	for {
+		n, err := r.Read(buf)
+		out = append(out, buf[:n]...)
+		if err != nil {
+			vfAssert(errors.Equal(err, io.EOF), "end-of-file expected")
+			break
+		}
+	}
+	<-done
+	vfAssert(len(out) == total, "byte count")
+	if len(out) == total {
+		vfAssert(out[0] == mark[0] && out[4095] == mark[1] && out[total-1] == mark[2], "bytes around the wrap point")
+	}
+	vfAssertTwin(len(out) != total, "twin")
 }
